@@ -258,6 +258,31 @@ def _ext_alone(tools):
                 return None if int(r2[0]) == want else 'seed: not deterministic'
             yield 'seed-%d-%s' % (sd, idx), seedcase
 
+    # request sequences over TWO batch generators: the derived seed depends only on (state word, index), whatever was requested before
+    def sequence(name, seq):
+        def case():
+            gens = dict(A=np.random.RandomState(11), B=np.random.RandomState(22))
+            words = {k: int(g.get_state()[1][0]) for k, g in gens.items()}
+            for pos, (g, idx) in enumerate(seq):
+                kw = dict(random_state=gens[g])
+                if idx is not None:
+                    kw['index_in_batch'] = idx
+                _, out = tools.prepare_seed(**kw)
+                want = sub_seed_oracle(words[g], idx or 0)
+                if int(out['seed']) != want:
+                    return 'seed: request %d of %s (generator %s, row %r) got %d; sub-seed (word, row) computed from scratch is %d' % (pos, name, g, idx, int(out['seed']), want)
+            return None
+        return case
+    A, B = 'A', 'B'
+    seqs = {'A0..3-then-B2': [(A, 0), (A, 1), (A, 2), (A, 3), (B, 2)],
+            'A0..2-then-B1-B3': [(A, 0), (A, 1), (A, 2), (B, 1), (B, 3)],
+            'interleaved': [(A, 0), (B, 0), (A, 1), (B, 1), (A, 2), (B, 2)],
+            'interleaved-no-B0': [(A, 0), (A, 1), (B, 1), (A, 2), (B, 2), (A, 3)],
+            'backwards': [(A, 3), (A, 1), (B, 2), (A, 0), (B, 0), (B, 3)],
+            'rowless-between': [(A, 0), (A, 1), (B, None), (A, 2), (B, 1)]}
+    for nm, sq in seqs.items():
+        yield 'seed-sequence-%s' % nm, sequence(nm, sq)
+
     # the SAME generator object used again after its state changed: the seed follows the state, not the object
     def reused_generator(how):
         def case():
@@ -422,7 +447,7 @@ def _run_thunk(th):
 
 
 def run_ext(tier, first_failure_only=True):
-    res = {'alone': dict(name='external-echo', bound='echo-style templates / option combinations, seeds {0,7} x index {None,0,1,2}, vectorised batches 0..3 of 4 rows with the full run metadata, one generator object reused after re-seeding / advancing / set_state', cases=0, nontrivial=0, failures=[],
+    res = {'alone': dict(name='external-echo', bound='echo-style templates / option combinations, seeds {0,7} x index {None,0,1,2}, vectorised batches 0..3 of 4 rows with the full run metadata, one generator object reused after re-seeding / advancing / set_state, 6 request sequences over two batch generators', cases=0, nontrivial=0, failures=[],
                          rule='non-trivial = the seed cases (used generator, row index given)'),
            'model': dict(name='external-in-model', bound='model Prior -> Simulator(vectorize(external_operation)), batch_size 1..3 x seeds 1..3 in batch 0, batch_size 2,4 in batches 1..3, generate() with the global seed after np.random.seed(1/2/1), + docstring example',
                          cases=0, nontrivial=0, failures=[], rule='non-trivial = batch_size > 1')}
